@@ -15,7 +15,7 @@ TH = VERIF / 'coq' / 'theories'
 NAMES_ARGS = 'Names.parse Names.fmt'
 # property -> (imports, header comment, [(theorem name, lemma expression, statement definitions to unfold)])
 TABLE = {
- 'C01': ('Base Digraph Names Graph GraphObs GraphInv GraphInvProofs Spec SpecProofs',
+ 'C01': ('Base Digraph Names Graph GraphObs GraphInv GraphInvProofs Spec SpecProofs Extracted SourceFacts SFMutators',
          'C01 — mutations behave as an abstract mixed graph: one typed edge per node pair.\n'
          '    The concrete model (Graph.v, validated against the real classes on every run) keeps the two mirrored edge\n'
          '    indexes, the per-node directed lists and the time-series lookup indexes; Inv says they all describe ONE mixed\n'
@@ -32,16 +32,38 @@ TABLE = {
           ('reference_model_keeps_one_edge_per_pair', '@spec_one_edge_per_pair Names.parse', []),
           ('reference_model_cycle_clause', '@s_closes_cycle_acyclic Names.parse', []),
           ('every_reference_state_is_reachable_as_a_concrete_state', '@abs_surjective Names.parse', []),
+          ('mutator_defaults_in_source_are_the_modelled_ones', 'mutator_defaults', []),
           ]),
- 'C02': ('Base Digraph DigraphProofs Names Graph GraphObs GraphInv GraphAcyclicProofs',
+ 'C02': ('Base Digraph DigraphProofs Names Graph GraphObs GraphInv GraphAcyclicProofs Extracted SourceFacts SFValidate Serial Matrix Skeleton TSGraph LagMatrix CtorAcyclicProofs CtorAcyclicLag',
          'C02 — validated graphs never hold a directed cycle; is_dag() reports exactly that.',
          [('cycle_check_is_exact_and_terminates', 'cycle_check Names.parse', ['cycle_check_statement']),
           ('validated_step_preserves_acyclicity', 'acyclic_step Names.parse Names.fmt', ['acyclic_step_statement']),
           ('validated_histories_are_acyclic', 'acyclic_run Names.parse Names.fmt', ['acyclic_run_statement']),
           ('closing_edge_refused_acyclic_edge_accepted', 'add_edge_cyclic_iff Names.parse Names.fmt', ['add_edge_cyclic_iff_statement']),
           ('is_dag_iff_all_directed_and_acyclic', 'is_dag_spec Names.parse', []),
+          ('validate_defaults_to_true_in_source', 'validate_defaults_to_true_everywhere', []),
+          ('from_dict_with_validation_is_acyclic_whatever_the_input', '@from_dict_validated_acyclic Names.parse Names.fmt', []),
+          ('from_dict_with_validation_succeeds_iff_unvalidated_result_is_acyclic', '@from_dict_true_iff Names.parse Names.fmt', []),
+          ('from_dict_validation_only_adds_the_cycle_refusal', '@from_dict_validate_err Names.parse Names.fmt', []),
+          ('dictionary_of_a_cyclic_graph_is_refused_with_validation', '@dict_roundtrip_cyclic_refused Names.parse Names.fmt', []),
+          ('from_adjacency_matrix_with_validation_is_acyclic_whatever_the_input', '@from_matrix_validated_acyclic Names.parse Names.fmt', []),
+          ('from_adjacency_matrix_with_validation_succeeds_iff_unvalidated_result_is_acyclic', '@from_matrix_true_iff Names.parse Names.fmt', []),
+          ('from_adjacency_matrix_cyclic_matrix_refused', '@from_matrix_cyclic_refused Names.parse Names.fmt', []),
+          ('from_adjacency_matrix_acyclic_matrix_accepted', '@from_matrix_acyclic_accepted Names.parse Names.fmt', []),
+          ('from_adjacency_matrix_default_names_only_cycles_are_refused', 'from_matrix_default_names', []),
+          ('from_networkx_with_validation_is_acyclic', '@from_nx_validated_acyclic Names.parse Names.fmt', []),
+          ('from_networkx_cyclic_refused', '@from_nx_cyclic_refused Names.parse Names.fmt', []),
+          ('from_networkx_acyclic_accepted', '@from_nx_acyclic_accepted Names.parse Names.fmt', []),
+          ('from_skeleton_gives_only_undirected_edges', '@from_skeleton_undirected Names.parse Names.fmt', []),
+          ('skeleton_constructors_are_acyclic', '@sk_from_dict_acyclic Names.parse Names.fmt', []),
+          ('every_validated_constructor_result_is_acyclic', '@built_validated_acyclic Names.parse Names.fmt', []),
+          ('is_dag_exact_on_every_constructed_graph_validated_or_not', '@is_dag_of_constructed Names.parse Names.fmt', []),
+          ('from_adjacency_matrices_with_validation_is_acyclic_whatever_the_input', 'from_adjacency_matrices_validated_acyclic', []),
+          ('from_adjacency_matrices_with_validation_succeeds_iff_unvalidated_result_is_acyclic', 'from_adjacency_matrices_true_iff', []),
+          ('from_adjacency_matrices_cyclic_refused', 'from_adjacency_matrices_cyclic_refused', []),
+          ('is_dag_exact_on_graphs_built_from_lagged_matrices', 'lag_is_dag_spec', []),
           ]),
- 'C03': ('Base Digraph Names Graph GraphObs GraphInv GraphAtomicLemmas GraphAtomicProofs',
+ 'C03': ('Base Digraph Names Graph GraphObs GraphInv GraphAtomicLemmas GraphAtomicProofs Extracted SourceFacts SFMutators',
          'C03 — a rejected mutation leaves the graph exactly as it was.\n'
          '    [equiv] allows only the insertion order of the edge indexes and of the per-node directed lists to differ\n'
          '    (what a failed-and-restored change_edge_type / replace_edge leaves behind); every observation is insensitive to it.',
@@ -50,8 +72,9 @@ TABLE = {
           ('equivalent_states_are_observationally_equal', 'observe_equiv Names.parse', ['observe_equiv_statement']),
           ('all_but_retyping_mutators_leave_the_state_literally_unchanged', 'failed_step_exact Names.parse Names.fmt', []),
           ('rejected_add_edge_leaves_no_implicit_nodes', '@at_add_edge_fail Names.parse', []),
+          ('mutator_defaults_in_source_are_the_modelled_ones', 'mutator_defaults', []),
           ]),
- 'C05': ('Base Digraph Names Graph GraphObs GraphInv Serial SerialProofs Closed',
+ 'C05': ('Base Digraph Names Graph GraphObs GraphInv Serial SerialProofs Closed Extracted SourceFacts SFSerialEq',
          'C05 — dictionary / JSON serialisation round-trips to a deeply equal graph.\n'
          '    TagsStable g: re-deriving the two reserved tags of a time-series node leaves its metadata unchanged (true of key-sorted\n'
          '    metadata and of metadata built by the node constructor; Inv has no clause on the shape of metadata lists).',
@@ -68,8 +91,9 @@ TABLE = {
           ('plain_to_time_series_rejects_directed_against_time', '@cg_to_ts_rejects_directed_against_time Names.parse Names.fmt', []),
           ('time_series_to_plain_deeply_equal', 'ts_to_cg_deep_eq_closed', []),
           ('time_series_to_plain_and_back', 'ts_to_cg_to_ts_closed', []),
+          ('serialisation_defaults_in_source_are_the_modelled_ones', 'serialisation_and_equality_defaults', []),
           ]),
- 'C08': ('Base Digraph Names Graph GraphObs GraphInv Matrix MatrixProofs Skeleton SkeletonProofs Closed TSGraph LagMatrix LagMatrixProofs',
+ 'C08': ('Base Digraph Names Graph GraphObs GraphInv Matrix MatrixProofs Skeleton SkeletonProofs Closed TSGraph LagMatrix LagMatrixProofs Extracted SourceFacts SFMatrix',
          'C08 — matrix, networkx, GML and skeleton interchange reconstruct an equal graph.\n'
          '    GML text is not modelled (exercised through the networkx form). The lagged matrices (to_numpy_by_lag / from_adjacency_matrices)\n'
          '    are modelled in LagMatrix.v at the template level of TSGraph.v; with validate=True the round trip is refused exactly when the\n'
@@ -99,11 +123,12 @@ TABLE = {
           ('lag_c08_clause_with_validation_refuted', 'c08_roundtrip_refuted', ['c08_roundtrip_statement']),
           ('lag_round_trip_needs_contemporaneous_undirected_edges_refuted', 'roundtrip_any_und_refuted', ['roundtrip_any_und_statement']),
           ('lag_round_trip_needs_an_edge_refuted', 'roundtrip_edgeless_refuted', ['roundtrip_edgeless_statement']),
+          ('matrix_constructor_defaults_in_source_are_the_modelled_ones', 'matrix_constructor_defaults', []),
           ]),
- 'C09': ('Base Digraph Names Graph GraphObs GraphInv Matrix Skeleton SkeletonProofs Closed',
+ 'C09': ('Base Digraph Names Graph GraphObs GraphInv Matrix Skeleton SkeletonProofs Closed Serial SubGraph SubGraphProofs SkeletonDict',
          'C09 — the skeleton is a live, purely undirected image of the graph.\n'
          '    Every skeleton view is a function of the CURRENT state of the graph model, so liveness is immediate in the model; the check\n'
-         '    takes the Skeleton object BEFORE the history. Not proved: sk_rebuild_dict_statement (rebuild from its own dictionary; compared on every run).',
+         '    takes the Skeleton object BEFORE the history.',
          [('nodes_are_the_graph_nodes', '@sk_nodes_spec Names.parse', []),
           ('one_undirected_edge_per_stored_edge_nothing_else', '@sk_edges_spec Names.parse', []),
           ('adjacency_symmetric', '@sk_adj_sym Names.parse', []),
@@ -116,6 +141,9 @@ TABLE = {
           ('rebuild_from_networkx', 'sk_rebuild_nx_closed', []),
           ('rebuild_from_matrix_own_class', 'sk_rebuild_matrix_own_closed', []),
           ('rebuild_from_networkx_own_class', 'sk_rebuild_nx_own_closed', []),
+          ('rebuild_from_own_dictionary', '@sk_rebuild_dict Names.parse Names.fmt', []),
+          ('rebuild_from_own_dictionary_deep', '@sk_rebuild_dict_deep Names.parse Names.fmt', []),
+          ('rebuild_from_own_dictionary_json_model', '@sk_rebuild_json Names.parse Names.fmt', []),
           ]),
  'C06': ('Base Alias AliasProofs',
          'C06 — exports, copies and derived graphs never alias the graph or each other.\n'
@@ -138,7 +166,7 @@ TABLE = {
           ('only_to_dict_is_shallow_in_the_table', 'table_only_to_dict_shallow', []),
           ('no_table_row_aliases', 'table_rows_safe', []),
           ]),
- 'C07': ('Base Names Graph GraphObs GraphInv Equality EqualityProofs Extracted Facts',
+ 'C07': ('Base Names Graph GraphObs GraphInv Equality EqualityProofs Extracted FactsEq SourceFacts SFSerialEq',
          'C07 — graph equality is a structural equivalence relation.\n'
          '    [graph_eqb] follows CausalGraph.__eq__ statement by statement (an error value where Python would raise);\n'
          '    [canon] forgets construction order and orients the symmetric edge types (-- <> oo) by endpoint order.',
@@ -163,8 +191,9 @@ TABLE = {
           ('node_equality_transitive', 'node_eqb_trans', []),
           ('dont_care_direction_list_in_source_is_the_modelled_one', 'dont_care_direction_set', []),
           ('edge_type_spellings_in_source_are_the_modelled_ones', 'edge_type_values_exact', []),
+          ('equality_defaults_in_source_are_the_modelled_ones', 'serialisation_and_equality_defaults', []),
           ]),
- 'C10': ('Base Digraph DigraphProofs Queries QueriesProofs Names Graph GraphObs GraphInv Bridge BridgeProofs',
+ 'C10': ('Base Digraph DigraphProofs Queries QueriesProofs Names Graph GraphObs GraphInv Bridge BridgeProofs Extracted SourceFacts SFTopo Serial SubGraph SubGraphProofs',
          'C10 — structural queries agree with their graph-theoretic definitions.',
          [('descendants_are_directed_reachability', '@desc_spec', []),
           ('ancestors_are_directed_reachability', '@anc_spec', []),
@@ -187,8 +216,28 @@ TABLE = {
           ('applies_to_every_validated_reachable_state_nodes_between', '@reachable_nodes_between_correct', []),
           ('graph_parents_view_is_digraph_parents', '@parents_bridge', []),
           ('reachable_validated_states_are_well_formed_dags', '@reachable_validated_dag', []),
+          ('topological_order_defaults_in_source_are_the_modelled_ones', 'topological_order_defaults', []),
+          ('ancestral_graph_is_the_induced_subgraph_on_node_and_ancestors', '@ancestral_graph_directed Names.parse Names.fmt', []),
+          ('descendant_graph_is_the_induced_subgraph_on_node_and_descendants', '@descendant_graph_directed Names.parse Names.fmt', []),
+          ('ancestral_graph_exact_whatever_the_set_iteration_order', '@ancestors_subgraph_any_order Names.parse Names.fmt', []),
+          ('descendant_graph_exact_whatever_the_set_iteration_order', '@descendants_subgraph_any_order Names.parse Names.fmt', []),
+          ('parents_graph_is_the_star_of_directed_edges_into_the_node', '@parents_graph_spec Names.parse Names.fmt', []),
+          ('children_graph_is_the_star_of_directed_edges_out_of_the_node', '@children_graph_spec Names.parse Names.fmt', []),
+          ('subgraphs_refuse_unknown_nodes', '@subgraph_missing_node Names.parse Names.fmt', []),
+          ('parents_children_graphs_refuse_unknown_nodes', '@star_missing_node Names.parse Names.fmt', []),
+          ('subgraphs_refuse_mixed_graphs', '@subgraph_mixed_refused Names.parse Names.fmt', []),
+          ('ancestors_independent_of_construction_order', '@ancestors_order_invariant Names.parse Names.fmt', []),
+          ('ancestral_graph_independent_of_construction_order', '@ancestral_graph_equiv_invariant Names.parse Names.fmt', []),
+          ('parents_children_graphs_independent_of_construction_order', '@parents_children_graph_equiv_invariant Names.parse Names.fmt', []),
+          ('descendants_depend_only_on_the_arc_set', '@desc_same_arcs', []),
+          ('ancestors_depend_only_on_the_arc_set', '@anc_same_arcs', []),
+          ('causal_paths_depend_only_on_the_arc_set', '@all_paths_same_arcs', []),
+          ('topological_orders_depend_only_on_the_arc_set', '@all_topo_same_arcs', []),
+          ('nodes_between_depend_only_on_the_arc_set', '@nodes_between_same_arcs', []),
+          ('directed_path_exists_depends_only_on_the_arc_set', '@directed_path_exists_same_arcs', []),
+          ('states_with_the_same_views_have_the_same_arcs', '@same_view_same_arcs', []),
           ]),
- 'C11': ('Base Digraph DSep DSepProofs Moral MoralProofs Names Graph GraphObs GraphInv Bridge BridgeProofs',
+ 'C11': ('Base Digraph DSep DSepProofs Moral MoralProofs Names Graph GraphObs GraphInv Bridge BridgeProofs Extracted SourceFacts SFSepSet',
          'C11 — d-separation answers match the graphical definition.\n'
          '    networkx is modelled by the textbook definition [dsep] (every path between X and Y is blocked by Z); [dsepb]\n'
          '    is its executable form, compared with is_d_separated exhaustively by the correspondence check.',
@@ -208,8 +257,9 @@ TABLE = {
           ('is_minimally_d_separated_algorithm_equals_the_definition_on_every_dag', '@nx_min_sepb_eq', []),
           ('is_minimally_d_separated_true_exactly_for_minimal_separators', '@nx_min_sepb_spec', []),
           ('applies_to_every_reachable_state', '@reachable_dsepb_correct', []),
+          ('separation_set_defaults_in_source_are_the_modelled_ones', 'separation_set_defaults', []),
           ]),
- 'C12': ('Base Dec Names NamesProofs Graph GraphObs GraphInv GraphInvProofs',
+ 'C12': ('Base Dec Names NamesProofs Graph GraphObs GraphInv GraphInvProofs Extracted SourceFacts SFTSNode SFCodec',
          'C12 — time-series node identity and lag / variable lookups stay coherent.\n'
          '    (A) the name codec is a bijection between canonical names and (variable, lag) pairs;\n'
          '    (B) NodeOK / IdxOK are part of Inv TS (fields ts_nodeok, ts_lagidx, ts_varidx of TSInv), hence hold in every\n'
@@ -228,8 +278,10 @@ TABLE = {
           ('decimal_read_print', 'read_print', []),
           ('every_reachable_state_satisfies_invariant_incl_NodeOK_IdxOK', 'inv_run Names.parse Names.fmt', ['inv_run_statement']),
           ('lookups_equal_scan', 'lookups_eq_scan Names.parse', ['lookups_eq_scan_statement']),
+          ('time_series_node_defaults_in_source_are_the_modelled_ones', 'time_series_node_defaults', []),
+          ('name_codec_functions_in_source_are_the_modelled_ones', 'name_codec_source_is_the_modelled_one', []),
           ]),
- 'C13': ('Base Digraph DigraphProofs Names Graph GraphObs GraphInv GraphInvProofs Queries QueriesProofs Bridge BridgeProofs',
+ 'C13': ('Base Digraph DigraphProofs Names Graph GraphObs GraphInv GraphInvProofs Queries QueriesProofs Bridge BridgeProofs Extracted SourceFacts SFTopo',
          'C13 — time-series graphs never point a directed edge backwards in time.\n'
          '    TimeOK (field ts_time of TSInv) is part of Inv TS, hence holds in every reachable state.',
          [('every_reachable_ts_state_satisfies_invariant_incl_TimeOK', 'inv_run Names.parse Names.fmt', ['inv_run_statement']),
@@ -237,6 +289,7 @@ TABLE = {
           ('return_all_is_exactly_the_time_sorted_topological_orders', '@all_time_topo_spec', []),
           ('time_sorted_orders_nonempty', '@all_time_topo_nonempty', []),
           ('validated_reachable_ts_states_have_a_time_sorted_topological_order', '@reachable_time_topo_exists', []),
+          ('topological_order_defaults_in_source_are_the_modelled_ones', 'topological_order_defaults', []),
           ]),
  'C14': ('Base Digraph TSGraph TSGraphProofs MinimalProofs MinimalProofs2 Names Graph GraphObs GraphInv Bridge BridgeProofs',
          'C14 — the minimal graph is exactly the set of lag-invariant edge templates.\n'
@@ -257,7 +310,7 @@ TABLE = {
           ('applies_to_every_state_reached_by_calls_with_canonical_names', '@canonical_history_bridge', []),
           ('time_series_abstraction_of_reachable_state_is_well_formed', '@to_tsg_wf', []),
           ]),
- 'C15': ('Base Digraph TSGraph TSGraphProofs MinimalProofs ExtendProofs',
+ 'C15': ('Base Digraph TSGraph TSGraphProofs MinimalProofs ExtendProofs Extracted SourceFacts SFExtend',
          'C15 — the extended graph is the exact unrolling of the minimal graph over the window.',
          [('negative_steps_refused', 'extend_neg', []),
           ('extend_succeeds_and_meets_characterisation', 'extend_spec', []),
@@ -269,6 +322,7 @@ TABLE = {
           ('minimal_graph_of_the_result_is_the_minimal_graph_of_the_input', 'minimal_of_extend', []),
           ('oracle_decides_the_characterisation', 'c15_check_m_spec', []),
           ('model_output_passes_the_oracle', 'extend_check', []),
+          ('extend_graph_defaults_in_source_are_the_modelled_ones', 'extend_graph_defaults', []),
           ]),
  'C16': ('Base Digraph TSGraph TSGraphProofs MinimalProofs ExtendProofs StationaryProofs StationaryProofs2',
          'C16 — the stationary graph is the least stationary super-graph; the test agrees.\n'
@@ -314,7 +368,7 @@ TABLE = {
           ('sufficiency_holds_on_all_dags_le4', 'conf_sufficient_le4', []),
           ('applies_to_every_validated_reachable_state', '@reachable_confounders_common_ancestors', []),
           ]),
- 'C19': ('Base Digraph DigraphProofs DSep DSepProofs Identify IdentifyProofs IdentifyDSep',
+ 'C19': ('Base Digraph DigraphProofs DSep DSepProofs Identify IdentifyProofs IdentifyDSep Extracted SourceFacts SFIdentify InstrumentsGen',
          'C19 — identified instruments and mediators satisfy their graphical criteria.',
          [('mediators_exact_characterisation', '@med_spec', []),
           ('mediators_lie_between', '@med_between', []),
@@ -326,8 +380,14 @@ TABLE = {
           ('instruments_total_on_dags', '@instruments_some', []),
           ('mediators_total_on_dags', '@mediators_some', []),
           ('instrument_d_separation_on_all_dags_le4', 'inst_dsep_le4', []),
+          ('identify_defaults_in_source_are_the_modelled_ones', 'identify_defaults', []),
+          ('instrument_d_separation_on_every_dag', '@inst_dsep_all', []),
+          ('instruments_are_ancestors_and_d_separated_on_every_dag', '@inst_clause1_all', []),
+          ('confounder_set_is_empty_exactly_without_a_common_cause', '@conf_nonempty_iff', []),
+          ('no_common_cause_means_d_separated_given_the_empty_set', '@ig_dsep_empty', []),
+          ('instruments_exact_characterisation_without_the_path_clause', '@inst_spec_no_paths', []),
           ]),
- 'C20': ('Base Digraph DSep DSepProofs Markov MarkovProofs Names Graph GraphObs GraphInv Bridge BridgeProofs',
+ 'C20': ('Base Digraph DSep DSepProofs Markov MarkovProofs Names Graph GraphObs GraphInv Bridge BridgeProofs Extracted SourceFacts SFIdentify',
          'C20 — Markov boundaries shield their node; colliders are the nodes with two arrowheads.',
          [('markov_boundary_is_parents_children_coparents', '@mb_spec', []),
           ('markov_boundary_shields', '@mb_shields', []),
@@ -340,6 +400,7 @@ TABLE = {
           ('unshielded_colliders', '@unshielded_spec', []),
           ('applies_to_every_validated_reachable_state', '@reachable_markov_boundary_shields', []),
           ('colliders_on_every_reachable_state', '@reachable_colliders_spec', []),
+          ('identify_defaults_in_source_are_the_modelled_ones', 'identify_defaults', []),
           ]),
 }
 
